@@ -1,4 +1,5 @@
 """C36 - CIDR trie lookups agree with plain prefix arithmetic (felix/ip/trie.go, felix/calc/iplpm.go)."""
+import copy
 import os
 
 from vlib import pipeline
@@ -94,6 +95,11 @@ def run(ctx):
             break
 
 
+def _fresh(fn):
+    # corruption_selftest hands out shallow copies: never let one corruption leak into the next one
+    return lambda evs: fn(copy.deepcopy(evs))
+
+
 def selftest(ctx):
     P = dict(BASE, design=[], gen=None, n_random=(20, 20))
 
@@ -141,9 +147,9 @@ def selftest(ctx):
                         e["lpm"][i] = {"f": True, "ns": 3, "nm": 9}
                         return evs
 
-    return pipeline.corruption_selftest(ctx, P, [("drop_delete", drop_delete), ("flip_value", flip_value),
-                                                 ("shorter_lpm", shorter_lpm), ("lose_descendant", lose_descendant),
-                                                 ("flip_covers", flip_covers), ("wrong_key", wrong_key)])
+    return pipeline.corruption_selftest(ctx, P, [("drop_delete", _fresh(drop_delete)), ("flip_value", _fresh(flip_value)),
+                                                 ("shorter_lpm", _fresh(shorter_lpm)), ("lose_descendant", _fresh(lose_descendant)),
+                                                 ("flip_covers", _fresh(flip_covers)), ("wrong_key", _fresh(wrong_key))])
 
 
 MANIFEST = dict(
